@@ -331,6 +331,9 @@ func (g *generator) next(r *run) string {
 				case 4:
 					code = 14
 				}
+				if r.noModel && g.rng.Chance(1, 10) {
+					exit = -1 // no action result in the response (monitor-only histories)
+				}
 				report = fmt.Sprintf("c:%s:%d:%d:%d", d, code, exit, g.nextTok)
 			case 1:
 				report = "e:" + d
